@@ -20,6 +20,7 @@ import (
 	"math/big"
 	"os"
 	"path/filepath"
+	"regexp"
 	"sort"
 	"strconv"
 	"strings"
@@ -121,6 +122,8 @@ type dict interface {
 	GoSpec(kt string, table string, entries []string) string
 	GoDecPut(kt string, table string, entries []string) string
 	GoReencode(table string) string
+	New(nk int, rest []string) string
+	GoOob(kt string, entries []string) string
 }
 
 type runner[K keyC, V any] struct {
@@ -362,13 +365,23 @@ func init() {
 		"hmb.decode":      func(a []string) string { return dictOf(a).DecodeBare(a[2]) },
 		"hm.get":          func(a []string) string { return dictOf(a).Get(a[2], a[3:]) },
 		"hm.decput":       func(a []string) string { return dictOf(a).DecPut(a[2], a[3:]) },
-		"hma.decode":      exAugDecode,
+		"hma.decode":      func(a []string) string { return augOf(a).Decode(a[3]) },
+		"hmai.decode":     func(a []string) string { return augOf(a).DecodeInline(a[3]) },
+		"go.hma.real":     func(a []string) string { return augOf(a).GoReal(a[0], a[3], a[4:]) },
 		"go.hm.roundtrip": func(a []string) string { return dictOf(a).GoRoundtrip(a[0], a[2:]) },
 		"go.hm.spec":      func(a []string) string { return dictOf(a).GoSpec(a[0], a[2], a[3:]) },
 		"go.hm.spec_wc32": func(a []string) string { return dictOf(a).GoSpec(a[0], a[2], a[3:]) },
 		"go.hm.real":      func(a []string) string { return dictOf(a).GoSpec(a[0], a[2], a[3:]) },
 		"go.hm.decput":    func(a []string) string { return dictOf(a).GoDecPut(a[0], a[2], a[3:]) },
 		"go.hm.reencode":  func(a []string) string { return dictOf(a).GoReencode(a[2]) },
+		"go.hm.oob":       func(a []string) string { return dictOf(a).GoOob(a[0], a[2:]) },
+		"hm.new": func(a []string) string {
+			nk, err := strconv.Atoi(a[2])
+			if err != nil {
+				panic("bad nk")
+			}
+			return dictOf(a).New(nk, a[3:])
+		},
 	})})
 }
 
@@ -738,9 +751,20 @@ func (r runner[K, V]) GoRoundtrip(kt string, entries []string) string {
 		orders[1][n-1-i] = want[i]
 		orders[2][(i+n/2+1)%imax(n, 1)] = want[i]
 	}
+	items0 := ""
 	for oi, o := range orders {
 		var dx tlb.HashmapE[K, V]
 		r.putAll(&dx, o)
+		// the slice kept by Put: the same listing for every insertion order, ascending in the key family's Compare order
+		itx := r.items(&dx)
+		if oi == 0 {
+			items0 = itx
+			if f := compareOrderViolation(kt, dx.Items(), r.kc.show); f != "" {
+				return "FAIL put-order " + f
+			}
+		} else if itx != items0 {
+			return fmt.Sprintf("FAIL put-order-dependent order=%d got=%s want=%s", oi, clip(itx), clip(items0))
+		}
 		cx, err := r.marshal(dx)
 		if err != nil {
 			return fmt.Sprintf("FAIL marshal-order%d %v", oi, err)
@@ -753,6 +777,27 @@ func (r runner[K, V]) GoRoundtrip(kt string, entries []string) string {
 	return "ok"
 }
 
+// compareOrderViolation: the keys of a dictionary filled by Put alone must ascend in the order of the key family —
+// numeric for UintN / IntN, byte order (= bit order) for BitsN and the address key. Computed on the key texts.
+func compareOrderViolation[K keyC, V any](kt string, items []tlb.HashmapItem[K, V], show func(K) string) string {
+	var prev *big.Int
+	prevText := ""
+	for i, it := range items {
+		txt := show(it.Key)
+		var v *big.Int
+		if kt[0] == 'u' || kt[0] == 'i' {
+			v, _ = new(big.Int).SetString(txt, 10)
+		} else {
+			v = new(big.Int).SetBytes(h.MustUnHex(txt))
+		}
+		if i > 0 && prev.Cmp(v) >= 0 {
+			return "keys " + prevText + " then " + txt
+		}
+		prev, prevText = v, txt
+	}
+	return ""
+}
+
 // GoSpec: Unmarshal of a dictionary tree built by an independent encoder (any label form on any edge) lists exactly
 // the given entries, in this (ascending key-bit) order, and Get agrees.
 func (r runner[K, V]) GoSpec(kt string, table string, entries []string) string {
@@ -761,6 +806,134 @@ func (r runner[K, V]) GoSpec(kt string, table string, entries []string) string {
 		return "FAIL unmarshal " + err.Error()
 	}
 	if f := r.checkDict(kt, d, entries, "spec"); f != "" {
+		return f
+	}
+	return "ok"
+}
+
+// New: NewHashmapE(keys, values) with slices of any two lengths; Marshal and Items() each under their own recover.
+func (r runner[K, V]) New(nk int, rest []string) string {
+	var keys []K
+	var vals []V
+	for _, k := range rest[:nk] {
+		keys = append(keys, r.kc.parse(k))
+	}
+	for _, v := range rest[nk:] {
+		vals = append(vals, r.vc.parse(v))
+	}
+	guard := func(f func() string) (out string) {
+		defer func() {
+			if recover() != nil {
+				out = "panic"
+			}
+		}()
+		return f()
+	}
+	m := guard(func() string {
+		c, err := r.marshal(tlb.NewHashmapE(keys, vals))
+		if err != nil {
+			return "err"
+		}
+		return "ok " + canonTable(c)
+	})
+	it := guard(func() string {
+		d := tlb.NewHashmapE(keys, vals)
+		items := d.Items()
+		out := "ok " + strconv.Itoa(len(items))
+		for _, x := range items {
+			out += " " + r.kc.show(x.Key) + "=" + r.vc.show(x.Value)
+		}
+		return out
+	})
+	return "ok M=" + strings.ReplaceAll(m, " ", ":") + " I=" + strings.ReplaceAll(it, " ", ":")
+}
+
+// goKeyBits: what Marshal writes for a typed integer key, possibly outside its declared width (independent of tongo):
+// UintN keeps the low N bits; IntN (N >= 2) the sign and the low N-1 bits; Int1 accepts only 0 and -1 ("" = error).
+func goKeyBits(kt, s string) string {
+	n := ktWidth(kt)
+	v, ok := new(big.Int).SetString(s, 10)
+	if !ok {
+		panic("bad key " + s)
+	}
+	low := func(x *big.Int, w int) string {
+		m := new(big.Int).Mod(x, new(big.Int).Lsh(big.NewInt(1), uint(w)))
+		b := m.Text(2)
+		if w == 0 {
+			return ""
+		}
+		return strings.Repeat("0", w-len(b)) + b
+	}
+	if kt[0] == 'u' {
+		return low(v, n)
+	}
+	if n == 1 {
+		switch s {
+		case "0":
+			return "0"
+		case "-1":
+			return "1"
+		}
+		return ""
+	}
+	if v.Sign() < 0 {
+		return "1" + low(v, n-1)
+	}
+	return "0" + low(v, n-1)
+}
+
+// GoOob: typed integer keys, some outside the declared width. Marshal must either fail — required when a key cannot
+// be written (Int1) or two keys truncate to the same bits — or produce a dictionary that decodes to exactly the
+// truncated keys with their values: entries with keys inside the domain are never lost or altered.
+func (r runner[K, V]) GoOob(kt string, entries []string) string {
+	var d tlb.HashmapE[K, V]
+	r.putAll(&d, entries)
+	typed := map[string]string{} // typed key text -> value (later Put of the same typed key wins)
+	var order []string
+	for _, e := range entries {
+		k, v := splitEntry(e)
+		if _, seen := typed[k]; !seen {
+			order = append(order, k)
+		}
+		typed[k] = v
+	}
+	byBits := map[string]string{}
+	mustFail := false
+	for _, k := range order {
+		b := goKeyBits(kt, k)
+		if b == "" {
+			mustFail = true
+			continue
+		}
+		if _, dup := byBits[b]; dup {
+			mustFail = true
+		}
+		byBits[b] = keyText(kt, b) + "=" + typed[k]
+	}
+	c, err := r.marshal(d)
+	if mustFail {
+		if err == nil {
+			return "FAIL marshal-accepts-colliding-keys " + clip(canonTable(c))
+		}
+		return "ok"
+	}
+	if err != nil {
+		return "FAIL marshal " + err.Error()
+	}
+	bits := make([]string, 0, len(byBits))
+	for b := range byBits {
+		bits = append(bits, b)
+	}
+	sort.Strings(bits)
+	want := make([]string, len(bits))
+	for i, b := range bits {
+		want[i] = byBits[b]
+	}
+	var d2 tlb.HashmapE[K, V]
+	if err := tlb.Unmarshal(c, &d2); err != nil {
+		return "FAIL unmarshal " + err.Error()
+	}
+	if f := r.checkDict(kt, &d2, want, "oob"); f != "" {
 		return f
 	}
 	return "ok"
@@ -826,54 +999,300 @@ func (r runner[K, V]) GoDecPut(kt string, table string, entries []string) string
 
 // ------------------------------------------------------------------------------------------------ HashmapAugE (decode only)
 
-func augDecode[K keyC](kc keyCodec[K], table string) string {
-	var d tlb.HashmapAugE[K, tlb.Uint32, tlb.Uint32]
+func showGrams(g tlb.Grams) string { return strconv.FormatUint(uint64(g), 10) }
+
+func showCC(c tlb.CurrencyCollection) string {
+	var parts []string
+	for _, it := range c.Other.Dict.Items() {
+		v := big.Int(it.Value)
+		parts = append(parts, strconv.FormatUint(uint64(it.Key), 10)+":"+v.String())
+	}
+	return showGrams(c.Grams) + "/{" + strings.Join(parts, ",") + "}"
+}
+
+func showExtraTree[X any](l *tlb.HashMapAugExtraList[X], show func(X) string) string {
+	if l.Left == nil && l.Right == nil {
+		return "L(" + show(l.Data) + ")"
+	}
+	left, right := "nil", "nil"
+	if l.Left != nil {
+		left = showExtraTree(l.Left, show)
+	}
+	if l.Right != nil {
+		right = showExtraTree(l.Right, show)
+	}
+	return "F(" + show(l.Data) + "," + left + "," + right + ")"
+}
+
+type augRunner interface {
+	Decode(table string) string
+	DecodeInline(table string) string
+	GoReal(kt, table string, entries []string) string
+}
+
+type augR[K keyC, V any, X any] struct {
+	kc keyCodec[K]
+	vc valCodec[V]
+	xs func(X) string
+}
+
+func (r augR[K, V, X]) entries(keys []K, vals []V) (string, bool) {
+	if len(keys) != len(vals) {
+		return "inconsistent-items", false
+	}
+	var sb strings.Builder
+	sb.WriteString(strconv.Itoa(len(keys)))
+	for i := range keys {
+		sb.WriteString(" " + r.kc.show(keys[i]) + "=" + r.vc.show(vals[i]))
+	}
+	return sb.String(), true
+}
+
+func (r augR[K, V, X]) Decode(table string) string {
+	var d tlb.HashmapAugE[K, V, X]
 	if err := tlb.Unmarshal(cellOfTable(table), &d); err != nil {
 		return "err"
 	}
-	keys, vals := d.Keys(), d.Values()
-	if len(keys) != len(vals) {
-		return "inconsistent-items"
-	}
-	var sb strings.Builder
-	sb.WriteString("ok " + strconv.Itoa(len(keys)))
-	for i := range keys {
-		sb.WriteString(" " + kc.show(keys[i]) + "=" + u32Codec.show(vals[i]))
-	}
-	return sb.String()
-}
-
-var augDecoders = map[string]func(string) string{}
-
-func regAug[K keyC](name string) {
-	kc := dicts[name+"/U32"].(runner[K, tlb.Uint32]).kc
-	augDecoders[name] = func(t string) string { return augDecode[K](kc, t) }
-}
-
-func exAugDecode(a []string) string {
-	if len(augDecoders) == 0 {
-		regAug[tlb.Uint8]("u8")
-		regAug[tlb.Uint32]("u32")
-		regAug[tlb.Int16]("i16")
-		regAug[tlb.Bits96]("b96")
-		regAug[tlb.Bits256]("b256")
-	}
-	f, ok := augDecoders[a[0]]
+	es, ok := r.entries(d.Keys(), d.Values())
 	if !ok {
-		panic("no aug decoder for " + a[0])
+		return es
 	}
-	return f(a[1])
+	xl := d.VerifExtras()
+	return "ok " + es + " | X=" + r.xs(d.VerifRootExtra()) + " T=" + showExtraTree(&xl, r.xs)
+}
+
+func (r augR[K, V, X]) DecodeInline(table string) string {
+	var d tlb.HashmapAug[K, V, X]
+	if err := tlb.Unmarshal(cellOfTable(table), &d); err != nil {
+		return "err"
+	}
+	es, ok := r.entries(d.VerifKeys(), d.Values())
+	if !ok {
+		return es
+	}
+	xl := d.VerifExtras()
+	return "ok " + es + " | T=" + showExtraTree(&xl, r.xs)
+}
+
+// GoReal: Unmarshal of an augmented dictionary taken from chain data lists exactly the entries the independent reader
+// (augParse) finds, in ascending key order.
+func (r augR[K, V, X]) GoReal(kt, table string, entries []string) string {
+	var d tlb.HashmapAugE[K, V, X]
+	if err := tlb.Unmarshal(cellOfTable(table), &d); err != nil {
+		return "FAIL unmarshal " + err.Error()
+	}
+	got, _ := r.entries(d.Keys(), d.Values())
+	want := make([]string, len(entries))
+	for i, e := range entries {
+		k, v := splitEntry(e)
+		want[i] = k + "=" + r.vc.show(r.vc.parse(v))
+	}
+	if got != wantItems(want) {
+		return "FAIL aug-items got=" + clip(got) + " want=" + clip(wantItems(want))
+	}
+	return "ok"
+}
+
+var augs = map[string]augRunner{}
+
+func regAugU32[K keyC](name string) {
+	kc := dicts[name+"/U32"].(runner[K, tlb.Uint32]).kc
+	augs[name+"/U32/U32"] = augR[K, tlb.Uint32, tlb.Uint32]{kc, u32Codec, u32Codec.show}
+	augs[name+"/U32/CC"] = augR[K, tlb.Uint32, tlb.CurrencyCollection]{kc, u32Codec, showCC}
+}
+
+func regAugReal[K keyC](name string) {
+	kc := dicts[name+"/U32"].(runner[K, tlb.Uint32]).kc
+	augs[name+"/P/CC"] = augR[K, Payload, tlb.CurrencyCollection]{kc, pCodec, showCC}
+	augs[name+"/P/DBI"] = augR[K, Payload, tlb.DepthBalanceInfo]{kc, pCodec, func(x tlb.DepthBalanceInfo) string {
+		return strconv.FormatUint(uint64(x.SplitDepth), 10) + "|" + showCC(x.Balance)
+	}}
+	augs[name+"/P/IF"] = augR[K, Payload, tlb.ImportFees]{kc, pCodec, func(x tlb.ImportFees) string {
+		return showGrams(x.FeesCollected) + "+" + showCC(x.ValueImported)
+	}}
+	augs[name+"/R/CC"] = augR[K, tlb.Ref[Payload], tlb.CurrencyCollection]{kc, rCodec, showCC}
+}
+
+func augOf(a []string) augRunner {
+	if len(augs) == 0 {
+		regAugU32[tlb.Uint8]("u8")
+		regAugU32[tlb.Uint32]("u32")
+		regAugU32[tlb.Int16]("i16")
+		regAugU32[tlb.Bits96]("b96")
+		regAugU32[tlb.Bits256]("b256")
+		regAugReal[tlb.Bits256]("b256")
+		regAugReal[tlb.Uint64]("u64")
+		regAugReal[tlb.Uint16]("u16")
+	}
+	r, ok := augs[a[0]+"/"+a[1]+"/"+a[2]]
+	if !ok {
+		panic("no aug dictionary type " + strings.Join(a[:3], "/"))
+	}
+	return r
 }
 
 var augKeyTypes = []string{"u8", "u32", "i16", "b96", "b256"}
+
+// ---- independent reader of augmented dictionaries
+
+// skipExtra returns the number of bits and refs an extra of the given type occupies at the start of (bits, refs).
+func skipExtra(xt, bits string, nrefs int) (nb, nr int, ok bool) {
+	grams := func(b string) (int, bool) {
+		if len(b) < 4 {
+			return 0, false
+		}
+		ln, _ := strconv.ParseInt(b[:4], 2, 64)
+		if len(b) < 4+8*int(ln) {
+			return 0, false
+		}
+		return 4 + 8*int(ln), true
+	}
+	cc := func(b string, refs int) (int, int, bool) {
+		g, ok := grams(b)
+		if !ok || len(b) < g+1 {
+			return 0, 0, false
+		}
+		if b[g] == '1' {
+			if refs < 1 {
+				return 0, 0, false
+			}
+			return g + 1, 1, true
+		}
+		return g + 1, 0, true
+	}
+	switch xt {
+	case "NONE":
+		return 0, 0, true
+	case "U32":
+		return 32, 0, len(bits) >= 32
+	case "CC":
+		return cc(bits, nrefs)
+	case "DBI":
+		if len(bits) < 5 {
+			return 0, 0, false
+		}
+		b, r, ok := cc(bits[5:], nrefs)
+		return b + 5, r, ok
+	case "IF":
+		g, ok := grams(bits)
+		if !ok {
+			return 0, 0, false
+		}
+		b, r, ok := cc(bits[g:], nrefs)
+		return g + b, r, ok
+	}
+	panic("unknown extra type " + xt)
+}
+
+// augParse reads `HashmapAug m X Y` by the TL-B definition (pruned branches are skipped). It returns the entries (key
+// bits, value = rest of the leaf) and a trimmed copy of the tree in which the refs of the values are replaced by
+// empty stub cells when stub is set (the dictionary decoder never looks inside them).
+func augParse(n *node, m int, prefix, xt string, stub bool, out *[]specEntry, budget *int) (*node, bool) {
+	*budget--
+	if *budget < 0 {
+		return nil, false
+	}
+	if n.ty == 1 {
+		return &node{ty: 1, bits: n.bits}, true
+	}
+	if n.ty != 0 {
+		return nil, false
+	}
+	var dummy []specEntry
+	b := n.bits
+	l, label, rest, ok := parseLabel(b, m)
+	_ = dummy
+	if !ok {
+		return nil, false
+	}
+	if l == m {
+		xb, xr, ok := skipExtra(xt, rest, len(n.refs))
+		if !ok {
+			return nil, false
+		}
+		val := &node{bits: rest[xb:], refs: n.refs[xr:]}
+		copyN := &node{bits: n.bits, refs: append([]*node{}, n.refs[:xr]...)}
+		if stub {
+			sv := &node{bits: val.bits}
+			for range val.refs {
+				sv.refs = append(sv.refs, &node{})
+				copyN.refs = append(copyN.refs, &node{})
+			}
+			val = sv
+		} else {
+			copyN.refs = append(copyN.refs, val.refs...)
+		}
+		*out = append(*out, specEntry{key: prefix + label, val: val})
+		return copyN, true
+	}
+	if len(n.refs) < 2 {
+		return nil, false
+	}
+	xb, xr, ok := skipExtra(xt, rest, len(n.refs)-2)
+	if !ok || xb != len(rest) || xr > len(n.refs)-2 { // (an inline root may be followed by further refs of its container)
+		return nil, false
+	}
+	lo, ok1 := augParse(n.refs[0], m-l-1, prefix+label+"0", xt, stub, out, budget)
+	if !ok1 {
+		return nil, false
+	}
+	hi, ok2 := augParse(n.refs[1], m-l-1, prefix+label+"1", xt, stub, out, budget)
+	if !ok2 {
+		return nil, false
+	}
+	return &node{bits: n.bits, refs: append([]*node{lo, hi}, n.refs[2:]...)}, true
+}
+
+// parseLabel reads one HmLabel ~l m from the front of b.
+func parseLabel(b string, m int) (l int, label, rest string, ok bool) {
+	switch {
+	case len(b) >= 1 && b[0] == '0':
+		i := 1
+		for i < len(b) && b[i] == '1' {
+			i++
+		}
+		if i >= len(b) {
+			return 0, "", "", false
+		}
+		l = i - 1
+		if l > m || len(b) < i+1+l {
+			return 0, "", "", false
+		}
+		return l, b[i+1 : i+1+l], b[i+1+l:], true
+	case len(b) >= 2 && b[:2] == "10":
+		w := bitLen(m)
+		if len(b) < 2+w {
+			return 0, "", "", false
+		}
+		v, _ := strconv.ParseInt("0"+b[2:2+w], 2, 64)
+		l = int(v)
+		if l > m || len(b) < 2+w+l {
+			return 0, "", "", false
+		}
+		return l, b[2+w : 2+w+l], b[2+w+l:], true
+	case len(b) >= 3 && b[:2] == "11":
+		w := bitLen(m)
+		if len(b) < 3+w {
+			return 0, "", "", false
+		}
+		v, _ := strconv.ParseInt("0"+b[3:3+w], 2, 64)
+		l = int(v)
+		if l > m {
+			return 0, "", "", false
+		}
+		return l, strings.Repeat(b[2:3], l), b[3+w:], true
+	}
+	return 0, "", "", false
+}
 
 // ------------------------------------------------------------------------------------------------ independent spec encoder
 
 // node is a cell tree of the generator (bits as a '0'/'1' string).
 type node struct {
-	ty   int
-	bits string
-	refs []*node
+	ty     int
+	bits   string
+	refs   []*node
+	isFork bool // set by specTree on fork nodes (a leaf may carry refs of its value)
 }
 
 func flatten(root *node) []h.Row {
@@ -972,7 +1391,7 @@ func specTree(es []specEntry, m int, choose formChooser, st *labelStats) *node {
 	}
 	form := choose(label, m, 1023)
 	st.count(form, l)
-	return &node{bits: encLabel(form, label, m), refs: []*node{
+	return &node{isFork: true, bits: encLabel(form, label, m), refs: []*node{
 		specTree(sub(es[:split]), m-l-1, choose, st),
 		specTree(sub(es[split:]), m-l-1, choose, st),
 	}}
@@ -1170,23 +1589,71 @@ func findRealDicts(repo string) []realDict {
 	}
 	sort.Strings(files)
 	var out []realDict
+	type source struct {
+		name  string
+		roots []*boc.Cell
+	}
+	var sources []source
+	parse := func(name string, f func() ([]*boc.Cell, error)) {
+		var roots []*boc.Cell
+		var err error
+		func() {
+			defer func() {
+				if recover() != nil {
+					err = fmt.Errorf("panic")
+				}
+			}()
+			roots, err = f()
+		}()
+		if err == nil && len(roots) > 0 {
+			sources = append(sources, source{name, roots})
+		}
+	}
 	for _, f := range files {
 		data, err := os.ReadFile(f)
 		if err != nil {
 			continue
 		}
-		var roots []*boc.Cell
-		func() {
-			defer func() { recover() }()
-			if strings.HasSuffix(f, ".hex") {
-				roots, err = boc.DeserializeBocHex(strings.TrimSpace(string(data)))
-			} else {
-				roots, err = boc.DeserializeBoc(data)
-			}
-		}()
-		if err != nil || len(roots) == 0 {
+		name := filepath.Base(filepath.Dir(f)) + "/" + filepath.Base(f)
+		if strings.HasSuffix(f, ".hex") {
+			parse(name, func() ([]*boc.Cell, error) { return boc.DeserializeBocHex(strings.TrimSpace(string(data))) })
+		} else {
+			parse(name, func() ([]*boc.Cell, error) { return boc.DeserializeBoc(data) })
+		}
+	}
+	// BOC literals (base64 "te6cc…", hex "b5ee9c72…") in the test sources of the whole repo: wallet messages
+	// (highload payloads), contract states, config fragments
+	var tests []string
+	filepath.Walk(repo, func(path string, info os.FileInfo, err error) error {
+		if err == nil && !info.IsDir() && strings.HasSuffix(path, "_test.go") {
+			tests = append(tests, path)
+		}
+		return nil
+	})
+	sort.Strings(tests)
+	lit := regexp.MustCompile(`te6cc[A-Za-z0-9+/=_-]{20,}|(?i:b5ee9c72)[0-9a-fA-F]{20,}`)
+	seenLit := map[string]bool{}
+	for _, f := range tests {
+		data, err := os.ReadFile(f)
+		if err != nil {
 			continue
 		}
+		rel, _ := filepath.Rel(repo, f)
+		for i, m := range lit.FindAllString(string(data), -1) {
+			if seenLit[m] {
+				continue
+			}
+			seenLit[m] = true
+			name := fmt.Sprintf("%s#%d", rel, i)
+			if strings.HasPrefix(m, "te6cc") {
+				parse(name, func() ([]*boc.Cell, error) { return boc.DeserializeBocBase64(m) })
+			} else if len(m)%2 == 0 {
+				parse(name, func() ([]*boc.Cell, error) { return boc.DeserializeBocHex(m) })
+			}
+		}
+	}
+	for _, src := range sources {
+		roots := src.roots
 		memo := map[*boc.Cell]*node{}
 		var order []*node
 		seen := map[*node]bool{}
@@ -1229,7 +1696,7 @@ func findRealDicts(repo string) []realDict {
 				budget := 4000
 				canon := true
 				if specParse(n, wt.n, "", &es, &budget, &canon) && len(es) >= 2 && len(es) <= 400 {
-					d := realDict{canon: canon, kt: wt.kt, root: n, entries: es, src: filepath.Base(filepath.Dir(f)) + "/" + filepath.Base(f)}
+					d := realDict{canon: canon, kt: wt.kt, root: n, entries: es, src: src.name}
 					if best == nil || (canon && !best.canon) {
 						best = &d
 					}
@@ -1462,9 +1929,11 @@ func genC05(g *h.G) {
 		genOneMap(g)
 	}
 	genBoundary(g)
+	genTypedLayer(g, g.Scale(200, 4000))
 	genAug(g, g.Scale(300, 4000))
 	genMalformed(g, g.Scale(800, 12000))
 	genReal(g)
+	genRealAug(g)
 }
 
 func pickSize(g *h.G) int {
@@ -1612,6 +2081,102 @@ func genOneMap(g *h.G) {
 	g.Emit("go.hm.decput", append([]string{kt, vt, table}, puts...)...)
 }
 
+// genTypedLayer: integer keys outside their declared width (within the Go kind: Uint7 is a uint8), and NewHashmapE with
+// key / value slices of different lengths.
+func genTypedLayer(g *h.G, count int) {
+	under := func(n int) int {
+		switch {
+		case n <= 8:
+			return 8
+		case n <= 16:
+			return 16
+		case n <= 32:
+			return 32
+		}
+		return 64
+	}
+	var narrow []string
+	for _, kt := range append(append([]string{}, keyTypes...), u32OnlyKeyTypes...) {
+		if (kt[0] == 'u' || kt[0] == 'i') && ktWidth(kt) < under(ktWidth(kt)) {
+			narrow = append(narrow, kt)
+		}
+	}
+	sort.Strings(narrow)
+	for i := 0; i < count; i++ {
+		kt := narrow[g.Rng.Intn(len(narrow))]
+		n, ub := ktWidth(kt), under(ktWidth(kt))
+		vt := "U32"
+		if _, full := dicts[kt+"/P"]; full && g.Rng.Intn(3) == 0 {
+			vt = "P"
+		}
+		seen := map[string]bool{}
+		var entries []string
+		oob := 0
+		for j := 2 + g.Rng.Intn(5); j > 0; j-- {
+			w := n
+			if g.Rng.Intn(2) == 0 {
+				w = ub
+			}
+			bits := randBits(g, w)
+			if g.Rng.Intn(4) == 0 && len(entries) > 0 { // an out-of-range twin of an earlier key: same low bits
+				k0, _ := splitEntry(entries[g.Rng.Intn(len(entries))])
+				tb := goKeyBits(kt, k0)
+				if len(tb) == n && ub > n {
+					bits = randBits(g, ub-n) + tb
+					if kt[0] == 'i' && n >= 2 {
+						bits = tb[:1] + randBits(g, ub-n) + tb[1:]
+					}
+				}
+			}
+			fam := kt[:1] + strconv.Itoa(len(bits))
+			k := keyText(fam, bits)
+			if seen[k] {
+				continue
+			}
+			seen[k] = true
+			if goKeyBits(kt, k) == "" || keyText(kt, goKeyBits(kt, k)) != k {
+				oob++
+			}
+			vtext, _ := randValue(g, vt, 100)
+			entries = append(entries, k+"="+vtext)
+		}
+		if oob > 0 {
+			g.Count("typed_out_of_range_sets")
+		} else {
+			g.Count("typed_in_range_sets")
+		}
+		g.Emit("hm.putkeys", append([]string{kt, vt}, entries...)...)
+		g.Emit("hm.build", append([]string{kt, vt}, entries...)...)
+		g.Emit("go.hm.oob", append([]string{kt, vt}, entries...)...)
+	}
+	for i := 0; i < count/2; i++ {
+		kt := c05KeyWeights[g.Rng.Intn(len(c05KeyWeights))]
+		vt := []string{"U32", "B256", "P"}[g.Rng.Intn(3)]
+		keys, _ := keySet(g, kt, g.Rng.Intn(5))
+		args := []string{kt, vt, strconv.Itoa(len(keys))}
+		for _, k := range keys {
+			args = append(args, keyText(kt, k))
+		}
+		nv := g.Rng.Intn(6)
+		if g.Rng.Intn(3) == 0 {
+			nv = len(keys)
+		}
+		for j := 0; j < nv; j++ {
+			vtext, _ := randValue(g, vt, 100)
+			args = append(args, vtext)
+		}
+		switch {
+		case nv < len(keys):
+			g.Count("slices_fewer_values")
+		case nv > len(keys):
+			g.Count("slices_more_values")
+		default:
+			g.Count("slices_equal")
+		}
+		g.Emit("hm.new", args...)
+	}
+}
+
 // genBoundary: leaf cells at the 1023-bit capacity, labels of exactly 7/8/9 bits, workchains outside int8.
 func genBoundary(g *h.G) {
 	for _, kt := range []string{"u8", "i9", "u64", "b256", "b512", "a288"} {
@@ -1668,38 +2233,266 @@ func genBoundary(g *h.G) {
 	}
 }
 
-// genAug: HashmapAugE[K, Uint32, Uint32] trees (value and extra 32 bits each) with random label forms.
+// random extras of the given type: (bits, refs)
+func randGrams(g *h.G) string {
+	ln := g.Pick(0, 1, 2, 4, 8)
+	if g.Rng.Intn(40) == 0 {
+		ln = 9 + g.Rng.Intn(7) // more than 8 bytes: tongo's Grams reports an overflow
+	}
+	return binN(ln, 4) + randBits(g, 8*ln)
+}
+
+func randCC(g *h.G) (string, []*node) {
+	bits := randGrams(g)
+	if g.Rng.Intn(4) != 0 {
+		return bits + "0", nil
+	}
+	keys, _ := keySet(g, "u32", 1+g.Rng.Intn(3))
+	sort.Strings(keys)
+	var spec []specEntry
+	for _, k := range keys {
+		ln := g.Rng.Intn(5)
+		spec = append(spec, specEntry{key: k, val: &node{bits: binN(ln, 5) + randBits(g, 8*ln)}})
+	}
+	return bits + "1", []*node{specTree(spec, 32, randomForms(g), nil)}
+}
+
+func randExtra(g *h.G, xt string) (string, []*node) {
+	switch xt {
+	case "U32":
+		return randBits(g, 32), nil
+	case "CC":
+		return randCC(g)
+	case "DBI":
+		b, r := randCC(g)
+		return binN(g.Rng.Intn(31), 5) + b, r
+	default: // IF
+		b, r := randCC(g)
+		return randGrams(g) + b, r
+	}
+}
+
+// genAug: HashmapAugE[K, Uint32, X] trees (X = Uint32 or CurrencyCollection) with random label forms.
 func genAug(g *h.G, count int) {
 	for i := 0; i < count; i++ {
 		kt := augKeyTypes[g.Rng.Intn(len(augKeyTypes))]
+		xt := "U32"
+		if g.Rng.Intn(3) == 0 {
+			xt = "CC"
+		}
 		n := ktWidth(kt)
 		keys, _ := keySet(g, kt, g.Pick(0, 1, 2, 3, 5, 9, 30))
 		sort.Strings(keys)
 		var spec []specEntry
 		for _, k := range keys {
 			// leaf: extra then value
-			spec = append(spec, specEntry{key: k, val: &node{bits: randBits(g, 32) + randBits(g, 32)}})
+			xb, xr := randExtra(g, xt)
+			spec = append(spec, specEntry{key: k, val: &node{bits: xb + randBits(g, 32), refs: xr}})
 		}
-		top := &node{bits: "0" + randBits(g, 32)}
+		xb, xr := randExtra(g, xt)
+		top := &node{bits: "0" + xb, refs: xr}
 		if len(spec) > 0 {
 			root := specTree(spec, n, randomForms(g), nil)
-			addForkExtras(g, root)
-			top = &node{bits: "1" + randBits(g, 32), refs: []*node{root}}
+			addForkExtras(g, root, xt)
+			top = &node{bits: "1" + xb, refs: append([]*node{root}, xr...)}
 		}
 		if g.Rng.Intn(6) == 0 {
 			mutateTree(g, top)
 			g.Count("aug_mutated")
 		}
-		g.Count("aug_trees")
-		g.Emit("hma.decode", kt, tableOf(top))
+		g.Count("aug_trees_" + xt)
+		g.Emit("hma.decode", kt, "U32", xt, tableOf(top))
 	}
 }
 
-func addForkExtras(g *h.G, n *node) {
-	if len(n.refs) == 2 {
-		n.bits += randBits(g, 32)
-		addForkExtras(g, n.refs[0])
-		addForkExtras(g, n.refs[1])
+func addForkExtras(g *h.G, n *node, xt string) {
+	if len(n.refs) >= 2 && n.isFork {
+		lo, hi := n.refs[0], n.refs[1]
+		xb, xr := randExtra(g, xt)
+		n.bits += xb
+		n.refs = append(n.refs, xr...)
+		addForkExtras(g, lo, xt)
+		addForkExtras(g, hi, xt)
+	}
+}
+
+// ---- real augmented dictionaries and transaction out_msgs dictionaries, located by the block layout
+
+func hasPrefixHex(n *node, hx string) bool {
+	want := bytesToBitStr(h.MustUnHex(hx))
+	return strings.HasPrefix(n.bits, want)
+}
+
+func countNodes(n *node, seen map[*node]bool) int {
+	if seen[n] {
+		return 0
+	}
+	seen[n] = true
+	c := 1
+	for _, r := range n.refs {
+		c += countNodes(r, seen)
+	}
+	return c
+}
+
+type realAugStats struct {
+	g        *h.G
+	txBudget int
+}
+
+// emitAugE emits the decode ops for one HashmapAugE cell of chain data; returns the un-stubbed entries.
+func (st *realAugStats) emitAugE(kt, vt, xt string, cell *node, what string) []specEntry {
+	g := st.g
+	if cell.ty != 0 || len(cell.bits) < 1 {
+		g.Count("realaug_skipped_" + what)
+		return nil
+	}
+	top := &node{bits: cell.bits, refs: append([]*node{}, cell.refs...)}
+	var entries, full []specEntry
+	if cell.bits[0] == '1' {
+		if len(cell.refs) < 1 {
+			g.Count("realaug_skipped_" + what)
+			return nil
+		}
+		budget := 20000
+		trimmed, ok := augParse(cell.refs[0], ktWidth(kt), "", xt, true, &entries, &budget)
+		if !ok || len(entries) > 700 {
+			g.Count("realaug_unparsed_" + what)
+			return nil
+		}
+		budget = 20000
+		augParse(cell.refs[0], ktWidth(kt), "", xt, false, &full, &budget)
+		top.refs[0] = trimmed
+	}
+	table := tableOf(top)
+	args := []string{kt, vt, xt, table}
+	for _, e := range entries {
+		args = append(args, keyText(kt, e.key)+"="+tableOf(e.val))
+	}
+	g.Count("realaug_" + what)
+	g.Count(fmt.Sprintf("realaug_entries_%s_%d", what, len(entries)/50*50))
+	g.NonTrivial("realaug/" + what + "/" + table[:imin(len(table), 200)])
+	g.Emit("hma.decode", kt, vt, xt, table)
+	g.Emit("go.hma.real", args...)
+	return full
+}
+
+// emitAccountBlock: AccountBlock = acc_trans#5 account_addr:bits256 transactions:(HashmapAug 64 ^Transaction CC)
+// state_update:^(HASH_UPDATE Account): the inline HashmapAug, and the out_msgs dictionary of every transaction.
+func (st *realAugStats) emitAccountBlock(val *node, what string) {
+	g := st.g
+	if len(val.bits) < 260 || val.bits[:4] != "0101" {
+		g.Count("realaug_accountblock_unrecognised")
+		return
+	}
+	inner := &node{bits: val.bits[260:], refs: val.refs}
+	var entries, full []specEntry
+	budget := 5000
+	trimmed, ok := augParse(inner, 64, "", "CC", true, &entries, &budget)
+	if !ok {
+		g.Count("realaug_inline_unparsed")
+		return
+	}
+	budget = 5000
+	augParse(inner, 64, "", "CC", false, &full, &budget)
+	g.Count("realaug_inline_transactions_dict")
+	g.Emit("hmai.decode", "u64", "R", "CC", tableOf(trimmed))
+	for _, e := range full {
+		if st.txBudget <= 0 {
+			g.Count("realtx_over_budget")
+			return
+		}
+		if len(e.val.refs) < 1 {
+			continue
+		}
+		tx := e.val.refs[0]
+		if tx.ty != 0 || len(tx.bits) < 4 || tx.bits[:4] != "0111" || len(tx.refs) < 1 {
+			g.Count("realtx_unrecognised")
+			continue
+		}
+		r1 := tx.refs[0]
+		if r1.ty != 0 || len(r1.bits) < 2 {
+			continue
+		}
+		idx := 0
+		if r1.bits[0] == '1' {
+			idx = 1
+		}
+		if r1.bits[1] != '1' || len(r1.refs) <= idx {
+			g.Count("realtx_no_out_msgs")
+			continue
+		}
+		var es []specEntry
+		b2 := 2000
+		trimmedDict, ok := augParse(r1.refs[idx], 15, "", "NONE", true, &es, &b2)
+		if !ok {
+			g.Count("realtx_out_msgs_unparsed")
+			continue
+		}
+		st.txBudget--
+		table := tableOf(hashmapE(trimmedDict))
+		g.Count(fmt.Sprintf("realtx_out_msgs_%d", len(es)))
+		g.Emit("hm.decode", "u15", "R", table)
+		g.Emit("go.hm.reencode", "u15", "R", table)
+	}
+}
+
+func genRealAug(g *h.G) {
+	repo := os.Getenv("VERIF_REPO")
+	if repo == "" {
+		repo = "/repo"
+	}
+	st := &realAugStats{g: g, txBudget: g.Scale(400, 100000)}
+	load := func(f string) *node {
+		data, err := os.ReadFile(f)
+		if err != nil {
+			return nil
+		}
+		var roots []*boc.Cell
+		func() {
+			defer func() { recover() }()
+			if strings.HasSuffix(f, ".hex") {
+				roots, err = boc.DeserializeBocHex(strings.TrimSpace(string(data)))
+			} else {
+				roots, err = boc.DeserializeBoc(data)
+			}
+		}()
+		if err != nil || len(roots) == 0 {
+			return nil
+		}
+		return nodeOfCell(roots[0], map[*boc.Cell]*node{})
+	}
+	blocks, _ := filepath.Glob(filepath.Join(repo, "tlb/testdata/block-*/block.bin"))
+	more, _ := filepath.Glob(filepath.Join(repo, "ton/testdata/*.bin"))
+	blocks = append(blocks, more...)
+	sort.Strings(blocks)
+	for _, f := range blocks {
+		n := load(f)
+		if n == nil || !hasPrefixHex(n, "11ef55aa") || len(n.refs) != 4 {
+			continue
+		}
+		g.Count("realaug_block_files")
+		extra := n.refs[3]
+		if extra.ty == 0 && hasPrefixHex(extra, "4a33f6fd") && len(extra.refs) >= 3 {
+			st.emitAugE("b256", "P", "IF", extra.refs[0], "in_msg_descr")
+			st.emitAugE("b256", "P", "CC", extra.refs[1], "out_msg_descr")
+			for _, e := range st.emitAugE("b256", "P", "CC", extra.refs[2], "account_blocks") {
+				st.emitAccountBlock(e.val, "account_blocks")
+			}
+		}
+		upd := n.refs[2]
+		if upd.ty == 4 && len(upd.refs) == 2 {
+			for _, stt := range upd.refs {
+				if stt.ty == 0 && hasPrefixHex(stt, "9023afe2") && len(stt.refs) >= 2 {
+					st.emitAugE("b256", "P", "DBI", stt.refs[1], "shard_accounts")
+				}
+			}
+		}
+	}
+	if n := load(filepath.Join(repo, "tlb/testdata/hashmap_aug.hex")); n != nil {
+		for _, e := range st.emitAugE("b256", "P", "CC", n, "hashmap_aug_hex") {
+			st.emitAccountBlock(e.val, "hashmap_aug_hex")
+		}
 	}
 }
 
@@ -1808,7 +2601,7 @@ func genReal(g *h.G) {
 		repo = "/repo"
 	}
 	ds := findRealDicts(repo)
-	limit := g.Scale(60, 400)
+	limit := g.Scale(400, 5000)
 	for i, d := range ds {
 		if i >= limit {
 			g.Count("real_skipped_over_limit")
@@ -1820,7 +2613,7 @@ func genReal(g *h.G) {
 			entries = append(entries, keyText(d.kt, e.key)+"="+tableOf(e.val))
 		}
 		g.Count("real_dict_" + d.kt)
-		g.Count("real_src_" + d.src)
+		g.Count("real_src_" + strings.SplitN(d.src, "#", 2)[0])
 		g.NonTrivial("real/" + d.src + "/" + d.entries[0].key)
 		g.Emit("hm.decode", d.kt, "P", table)
 		g.Emit("go.hm.real", append([]string{d.kt, "P", table}, entries...)...)
